@@ -178,6 +178,9 @@ struct RunOut {
     phase1: Obs,
     /// after a following `compute()` when phase 1 was bounded and did not stabilize
     phase2: Option<Obs>,
+    /// after the solver has stabilized: some node values raised through `node_values_mut()` (documented to mark every
+    /// node that has a value as dirty), the assignment right after the modification, and the state after `compute()`
+    phase3: Option<(Vec<Val>, Obs)>,
 }
 
 struct Problem<'g, N, E> {
@@ -228,7 +231,24 @@ fn run_solver<N, E: Clone>(p: &Problem<N, E>, order: Option<&[usize]>, bound: Op
         } else {
             None
         };
-        RunOut { first_src, phase1, phase2 }
+        // second history step: the caller changes values in place and runs the solver again
+        let stabilized_now = phase2.as_ref().map(|o| o.stabilized).unwrap_or(phase1.stabilized);
+        let phase3 = if stabilized_now {
+            let salt = crate::tape::fnv(format!("{:?}{:?}", p.starts, p.default).as_bytes()) ^ n as u64;
+            // the iterator yields values only (in an unspecified order): the change is a function of the value
+            for v in comp.node_values_mut() {
+                let h = crate::tape::mix64(salt ^ (*v as u64).wrapping_mul(0x9e37_79b9_7f4a_7c15));
+                if h % 3 == 0 {
+                    *v |= ((h >> 8) as u8) & 0x5b;
+                }
+            }
+            let modified = observe(&comp, n).values;
+            comp.compute();
+            Some((modified, observe(&comp, n)))
+        } else {
+            None
+        };
+        RunOut { first_src, phase1, phase2, phase3 }
     })
 }
 
@@ -363,6 +383,24 @@ fn check_run<N, E: Clone>(
                     }
                 }
             }
+        }
+    }
+    if let Some((modified, o3)) = &out.phase3 {
+        let expected = kleene(&ex.edges, p.tfs, modified);
+        if modified.iter().zip(ex.least.iter()).any(|(a, b)| a != b) {
+            ctx.label("rerun-after-node_values_mut:some-value-raised");
+            if modified.iter().any(|v| v.is_none()) {
+                ctx.label("rerun-after-node_values_mut:with-value-less-nodes");
+            }
+        }
+        if o3.values != expected {
+            ctx.report(
+                "C07:rerun-after-node_values_mut:differs-from-least-solution",
+                what(&format!("values after the first run were raised through node_values_mut() to {:?}\nafter compute(): {:?}\nleast solution containing the modified values: {:?}", modified, o3.values, expected)),
+            )?;
+        }
+        if !o3.stabilized || !o3.worklist.is_empty() {
+            ctx.report("C07:rerun-after-node_values_mut:not-stabilized", what(&format!("worklist after compute(): {:?}", o3.worklist)))?;
         }
     }
     Ok(())
